@@ -139,13 +139,23 @@ def _intros(goal, extra, out, depth=0):
     return out
 
 
-def _plain(ob, timeout_ms, seed):
-    s = z3.Solver()
-    s.set('timeout', timeout_ms)
-    s.set('random_seed', seed)
-    for h in ob.hyps:
-        s.add(h)
-    s.add(z3.Not(ob.goal))
+def _plain(ob, timeout_ms, seed, fresh=False):
+    if fresh:
+        # a fresh context: same query, fresh term ids (see _case_split) — the retry is not a repetition
+        ctx = z3.Context()
+        s = z3.Solver(ctx=ctx)
+        s.set('timeout', timeout_ms)
+        s.set('random_seed', seed)
+        for h in ob.hyps:
+            s.add(h.translate(ctx) if isinstance(h, z3.ExprRef) else h)
+        s.add(z3.Not(ob.goal.translate(ctx)))
+    else:
+        s = z3.Solver()
+        s.set('timeout', timeout_ms)
+        s.set('random_seed', seed)
+        for h in ob.hyps:
+            s.add(h)
+        s.add(z3.Not(ob.goal))
     try:
         r = s.check()
     except z3.Z3Exception as e:
@@ -179,6 +189,64 @@ def _sliced(ob, timeout_ms):
         return False
 
 
+def _ite_conditions(exprs, limit=3):
+    """conditions of if-then-else terms occurring in the formulas (closed ones, outside quantifiers), most frequent first"""
+    count, seen = {}, set()
+
+    def walk(e, depth):
+        if e.get_id() in seen or depth > 60:
+            return
+        seen.add(e.get_id())
+        if z3.is_quantifier(e):
+            return
+        if z3.is_app_of(e, z3.Z3_OP_ITE) and not z3.is_bool(e):
+            c = e.arg(0)
+            count[c.get_id()] = (count.get(c.get_id(), (0, c))[0] + 1, c)
+        for ch in e.children():
+            walk(ch, depth + 1)
+    for e in exprs:
+        if isinstance(e, z3.ExprRef):
+            walk(e, 0)
+    return [c for _, c in sorted(count.values(), key=lambda t: -t[0])[:limit]]
+
+
+def _case_split(ob: Obligation, timeout_ms):
+    """case analysis on the conditions of if-then-else terms (code such as `a if j >= 0 else b` puts both cases of a former
+    two-branch statement into ONE verification condition): the goal is proved if it is proved under every assignment of the
+    conditions.  Sound (the cases are exhaustive); only `unsat` of every case is used."""
+    try:
+        conds = _ite_conditions(list(ob.hyps[-30:]) + [ob.goal], 4)
+        if os.environ.get('VF_DEBUG'):
+            print('case split conditions:', conds, 'for', ob.name)
+        if not conds:
+            return False
+        import itertools
+        # a FRESH z3 context per attempt: in a long-lived context the same query is answered in 10 ms or left unknown
+        # depending on what was solved before (term ids drive the search order of the nonlinear solver)
+        ctx = z3.Context()
+        hyps = [h.translate(ctx) for h in ob.hyps if isinstance(h, z3.ExprRef)]
+        goal = ob.goal.translate(ctx)
+        conds = [c.translate(ctx) for c in conds]
+        for signs in itertools.product((True, False), repeat=len(conds)):
+            s = z3.Solver(ctx=ctx)
+            s.set('timeout', timeout_ms)
+            for h in hyps:
+                s.add(h)
+            for c, sg in zip(conds, signs):
+                s.add(c if sg else z3.Not(c))
+            s.add(z3.Not(goal))
+            r = s.check()
+            if r != z3.unsat:
+                if os.environ.get('VF_DEBUG'):
+                    print('case', signs, r)
+                return False
+        return True
+    except Exception as e:       # noqa: BLE001
+        if os.environ.get('VF_DEBUG'):
+            print('case split failed:', repr(e))
+        return False
+
+
 def solve_one(ob: Obligation, timeout_ms: int, portfolio=True, seed=0, cheap=False):
     """plain z3 with a short budget -> lemma slice -> bounded refutation (a counter-model with the integer inputs in a
     small box is a genuine counter-model) -> plain z3 with the full budget -> other back ends on the SMT-LIB dump (a fresh
@@ -194,10 +262,12 @@ def solve_one(ob: Obligation, timeout_ms: int, portfolio=True, seed=0, cheap=Fal
         return 'proved', zv + ' (lemma slice)', time.time() - t0, None, ''
     if bounded_refute(ob, 3, 4000):
         return 'refuted', zv, time.time() - t0, ob.model, 'counter-model found with integer inputs confined to [-3, 3]'
+    if _case_split(ob, min(timeout_ms, 2500)):
+        return 'proved', zv + ' (case split on if-then-else conditions)', time.time() - t0, None, ''
     if cheap:
         return 'unknown', zv, time.time() - t0, None, reason + ' (cheap mode: full-budget attempts skipped)'
     if timeout_ms > short:
-        st, model, reason = _plain(ob, timeout_ms, seed + 1)
+        st, model, reason = _plain(ob, timeout_ms, seed + 1, fresh=True)
         if st != 'unknown':
             return st, zv, time.time() - t0, model, reason
     if portfolio:
